@@ -320,13 +320,16 @@ def _check_special(case):
     derived = 'from sp.base import Base\n\n\n\nclass Derived(Base):\n    "doc"\n    def run(self):\n        pass\n' + '\n' * 30
     user = (pad + 'def use():\n    """\n    First paragraph,\n    on two lines.\n\n    Second paragraph.\n\n    Third paragraph: this one\n    mentions ' + link('Gadget')
             + ' which two modules define.\n    """\n')
-    files = {'__init__.py': '', 'props.py': props, 'base.py': base, 'derived.py': derived, 'user.py': user,
+    # characters that str.splitlines() takes for line ends but Python's tokenizer and the line bookkeeping do not
+    odd = (pad + 'def ff():\n    """\n    Summary.\n\n    A line separator \u2028 inside, and a next-line \x85 character.\n\n    Then ' + link('missing_after_breaks')
+           + ' here.\n\n    ' + unk.replace('nosuchfield', 'otherfield') + '\n    """\n')
+    files = {'__init__.py': '', 'props.py': props, 'base.py': base, 'derived.py': derived, 'user.py': user, 'odd.py': odd,
              'one.py': 'class Gadget:\n    "doc"\n', 'two.py': 'class Gadget:\n    "doc"\n'}
     d = tempfile.mkdtemp(prefix='c16.', dir='/var/tmp')
     try:
         os.makedirs(os.path.join(d, 'sp'))
         for name, text in files.items():
-            with open(os.path.join(d, 'sp', name), 'w') as f:
+            with open(os.path.join(d, 'sp', name), 'w', encoding='utf-8', newline='\n') as f:
                 f.write(text)
         out = io.StringIO()
         with contextlib.redirect_stdout(out), contextlib.redirect_stderr(io.StringIO()):
@@ -338,7 +341,7 @@ def _check_special(case):
         fails = []
 
         def line_of(text, needle):
-            return next(i for i, l in enumerate(text.splitlines(), 1) if needle in l)
+            return next(i for i, l in enumerate(text.split('\n'), 1) if needle in l)
 
         def expect(needle_msg, fname, text, needle_src, what, first_line_of=None):
             # the first line of the paragraph / field, or (docutils, for a paragraph of several lines) a line of it up to the one at fault
@@ -357,6 +360,9 @@ def _check_special(case):
             expect('missing_in_base', 'base.py', base, 'missing_in_base', 'inherited xref')
         expect('bad docstring', 'base.py', base, 'Markup problem', 'inherited markup problem')
         expect('Gadget', 'user.py', user, 'Gadget', 'ambiguous ref', first_line_of='Third paragraph')
+        if ep:      # (docutils counts these characters as line ends itself)
+            expect('missing_after_breaks', 'odd.py', odd, 'missing_after_breaks', 'after line separator characters')
+            expect('otherfield', 'odd.py', odd, 'otherfield', 'field after line separator characters')
         # nothing is reported against the module that merely inherits the docstring
         for l in msgs:
             if 'sp/derived.py' in l.split(': ')[0]:
